@@ -310,7 +310,9 @@ def gen(j, rng, nops):
            # machine-word boundary a bounded counter might wrap at
            "msg_id_start": rng.choice([0, 1, 200, 250, 254, 255, rng.randrange(256), 65279, 65500, 65533, 65535, 65536,
                                        2 ** 24 - 3, 2 ** 31 - 5, 2 ** 32 - 4, 2 ** 63 - 2, 2 ** 64 - 3]),
-           "caps_pages": pages, "backpressure": rng.random() < 0.25, "clients": 2}
+           "caps_pages": pages, "backpressure": rng.random() < 0.25, "clients": 2,
+           # units differ in how they sign the body of their responses (CRC-8 or a plain checksum)
+           "check_style": rng.choice(["crc", "crc", "sum"])}
     ops = [{"op": "caps"}] if rng.random() < 0.8 else []
     while len(ops) < nops:
         r = rng.random()
